@@ -12,7 +12,7 @@ numbers, the character classes delimited by the literals in the code): the analy
 partition, not a sample of concrete runs."""
 import re
 
-from astlib import is_node, show, show_pat, tok_text
+from astlib import is_node, show, show_pat, tok_text, walk
 from rules.common import _flatp
 from rules import dtable
 from rules.dtable import Unknown, Ret, C, A, T, UNIT, lit_value
@@ -37,6 +37,33 @@ def I(n):
     return ("int", n)
 
 
+class MutRef(tuple):
+    """value of `&mut v[a..b]`: behaves as the current content of that part of the variable (a list value); in-place
+    list operations applied through it change the variable"""
+    def __new__(cls, env, name, a, z):
+        cur = env[name][1]
+        z2 = len(cur) if z is None else z
+        self = tuple.__new__(cls, ("list", tuple(cur[a:z2])))
+        self.env, self.name, self.a, self.z = env, name, a, z2
+        return self
+
+    def store(self, part):
+        cur = list(self.env[self.name][1])
+        self.env[self.name] = ("list", tuple(cur[:self.a] + list(part) + cur[self.z:]))
+
+
+class _Rev:
+    """sort key wrapped in std::cmp::Reverse"""
+    def __init__(self, k):
+        self.k = k
+
+    def __lt__(self, o):
+        return o.k < self.k
+
+    def __eq__(self, o):
+        return self.k == o.k
+
+
 DEFAULT = ("ctor", "<default>", ())   # `Default::default()` of a type the evaluator does not know
 
 
@@ -45,12 +72,14 @@ def TOK(text):
 
 
 class Brk(Exception):
-    def __init__(self, value=None):
+    def __init__(self, value=None, label=None):
         self.value = value
+        self.label = label
 
 
 class Cont(Exception):
-    pass
+    def __init__(self, label=None):
+        self.label = label
 
 
 def fields_of(v):
@@ -174,6 +203,12 @@ class AEval(dtable.Eval):
                 if op == "&&":
                     return B(a and self.truth(e["right"], env))
                 return B(a or self.truth(e["right"], env))
+            if op in ("+=", "-=") and is_node(e["left"]) and e["left"]["k"] == "Path":
+                a, b = self.ex(e["left"], env), self.ex(e["right"], env)
+                if a[0] == "int" and b[0] == "int":
+                    env[e["left"]["path"]] = I(a[1] + b[1] if op == "+=" else a[1] - b[1])
+                    return UNIT
+                raise Unknown("compound assignment on non numbers")
             a, b = self.ex(e["left"], env), self.ex(e["right"], env)
             if op in ("==", "!="):
                 if (a[0] == "atom" and a[1].startswith("expr:")) or (b[0] == "atom" and b[1].startswith("expr:")):
@@ -198,6 +233,22 @@ class AEval(dtable.Eval):
             if e["op"] == "-" and v[0] == "int":
                 return I(-v[1])
             raise Unknown("unary " + e["op"])
+        if k == "Ref" and e.get("mut"):
+            # `&mut v[a..b]` / `&mut v` of a list variable: a reference through which the list can be changed in place
+            tgt = e["expr"]
+            while is_node(tgt) and tgt["k"] == "Paren":
+                tgt = tgt["expr"]
+            lo = hi = None
+            if is_node(tgt) and tgt["k"] == "Index" and is_node(tgt["index"]) and tgt["index"]["k"] == "Range" and is_node(tgt["expr"]) and tgt["expr"]["k"] == "Path":
+                rg = tgt["index"]
+                lo = self.ex(rg["start"], env) if is_node(rg.get("start")) else I(0)
+                hi = self.ex(rg["end"], env) if is_node(rg.get("end")) else None
+                if hi is not None and rg.get("inclusive") and hi[0] == "int":
+                    hi = I(hi[1] + 1)
+                base = tgt["expr"]["path"]
+                if base in env and env[base][0] == "list" and lo[0] == "int" and (hi is None or hi[0] == "int"):
+                    return MutRef(env, base, lo[1], hi[1] if hi is not None else None)
+            return self.ex(e["expr"], env)
         if k in ("Ref", "Paren"):
             return self.ex(e["expr"], env)
         if k == "Cast":
@@ -216,6 +267,13 @@ class AEval(dtable.Eval):
         if k == "Closure":
             return ("closure", e, env)
         if k == "Block":
+            if e.get("label"):
+                try:
+                    return self.block(e, env)
+                except Brk as bk:
+                    if bk.label != e["label"]:
+                        raise
+                    return bk.value if bk.value is not None else UNIT
             return self.block(e, env)
         if k == "Match":
             return self.match(e, env)
@@ -224,7 +282,7 @@ class AEval(dtable.Eval):
         if k == "Return":
             raise Ret(self.ex(e["expr"], env) if e.get("expr") else UNIT)
         if k == "Break":
-            raise Brk(self.ex(e["expr"], env) if is_node(e.get("expr")) else None)
+            raise Brk(self.ex(e["expr"], env) if is_node(e.get("expr")) else None, e.get("label"))
         if k in ("While", "Loop"):
             n_iter = 0
             while True:
@@ -245,9 +303,12 @@ class AEval(dtable.Eval):
                         return UNIT
                 try:
                     self.ex(e["body"], e2)
-                except Cont:
-                    pass
+                except Cont as ct:
+                    if ct.label is not None and ct.label != e.get("label"):
+                        raise
                 except Brk as bk:
+                    if bk.label is not None and bk.label != e.get("label"):
+                        raise
                     return bk.value if bk.value is not None else UNIT
                 finally:
                     if e2 is not env:
@@ -255,7 +316,7 @@ class AEval(dtable.Eval):
                             if kk in e2 and not (k == "While" and is_node(e["cond"]) and e["cond"]["k"] == "LetExpr" and kk in b):
                                 env[kk] = e2[kk]
         if k == "Continue":
-            raise Cont()
+            raise Cont(e.get("label"))
         if k == "Try":
             v = self.ex(e["expr"], env)
             if v[0] == "ctor" and v[1] in ("Err", "None"):
@@ -267,10 +328,21 @@ class AEval(dtable.Eval):
                 return v
             raise Unknown("? on " + str(v)[:60])
         if k == "ForLoop":
+            src = e["iter"]
+            consume = None
+            if is_node(src) and src["k"] == "Ref" and src.get("mut") and is_node(src["expr"]) and src["expr"]["k"] == "Path":
+                consume = src["expr"]["path"]
+            elif is_node(src) and src["k"] == "MethodCall" and src["method"] == "by_ref" and is_node(src["receiver"]) and src["receiver"]["k"] == "Path":
+                consume = src["receiver"]["path"]
+            if consume is not None and not (consume in env and env[consume][0] == "list"):
+                consume = None
             it = self.ex(e["iter"], env)
             if it[0] != "list":
                 raise Unknown("for over non list")
             for x in it[1]:
+                if consume is not None:
+                    # iterating through `&mut it`: the iterator variable loses the element (what is left stays for later)
+                    env[consume] = ("list", tuple(env[consume][1][1:]))
                 e2 = dict(env)
                 b = self.pat(e["pat"], x, e2)
                 if b is None:
@@ -278,14 +350,19 @@ class AEval(dtable.Eval):
                 e2.update(b)
                 try:
                     self.ex(e["body"], e2)
-                except Cont:
+                except Cont as ct:
+                    if ct.label is not None and ct.label != e.get("label"):
+                        raise
                     continue
-                except Brk:
+                except Brk as bk:
+                    if bk.label is not None and bk.label != e.get("label"):
+                        raise
                     break
-                # assignments to outer variables made in the body
-                for kk in env:
-                    if kk in e2 and kk not in b:
-                        env[kk] = e2[kk]
+                finally:
+                    # assignments to outer variables made in the body (also before a `continue` / `break`)
+                    for kk in env:
+                        if kk in e2 and kk not in b:
+                            env[kk] = e2[kk]
             return UNIT
         if k == "Assign":
             v = self.ex(e["right"], env)
@@ -298,21 +375,7 @@ class AEval(dtable.Eval):
                 return UNIT
             if is_node(l) and l["k"] == "Field":
                 # `base.f = v`: functional update of the record held by base (recursively for `a.b.c = v`)
-                def upd(target, newv):
-                    while is_node(target) and target["k"] in ("Paren", "Unary", "Ref"):
-                        target = target["expr"]
-                    if is_node(target) and target["k"] == "Path":
-                        env[target["path"]] = newv
-                        return
-                    if is_node(target) and target["k"] == "Field":
-                        cur = self.ex(target["base"], env)
-                        if cur[0] == "ctor" and len(cur) > 3:
-                            fs = dict(cur[3])
-                            fs[str(target["member"])] = newv
-                            upd(target["base"], ("ctor", cur[1], cur[2], tuple(sorted(fs.items()))))
-                            return
-                    raise Unknown("assignment target")
-                upd(l, v)
+                self._assign_place(l, v, env)
                 return UNIT
             raise Unknown("assignment target")
         if k == "Macro":
@@ -380,6 +443,21 @@ class AEval(dtable.Eval):
             return C("Ok", UNIT)
         if p == "vec" and "args" in e:
             return L(*[self.ex(a, env) for a in e["args"]])
+        if "macro!" + p in env and "args" in e:
+            # a one-rule macro_rules! defined in this function: its body evaluated in the scope of the call, parameters
+            # bound to the argument expressions' values (the body names the enclosing function's variables directly)
+            _m, params, body = env["macro!" + p]
+            if len(params) != len(e["args"]):
+                raise Unknown("macro arity " + p)
+            e2 = dict(env)
+            for pn, a in zip(params, e["args"]):
+                e2[pn] = self.ex(a, env)
+            try:
+                return self.ex(body, e2)
+            finally:
+                for kk in env:
+                    if kk in e2 and kk not in params:
+                        env[kk] = e2[kk]
         if p == "cfg":
             if self.cfg is not None:
                 return B(bool(self.cfg(_flatp(tok_text(e["tokens"])) if "tokens" in e else _flatp(show(e)))))
@@ -396,10 +474,18 @@ class AEval(dtable.Eval):
                 if b is None:
                     raise Unknown("closure parameter pattern")
                 e2.update(b)
+            bound = set()
+            for p in node["inputs"]:
+                bound |= {y["name"] for y in walk(p) if y["k"] == "PIdent"}
             try:
                 return self.ex(node["body"], e2)
             except Ret as r:
                 return r.value
+            finally:
+                # a closure that assigns to / pushes on a captured variable changes the variable it captured
+                for kk in cenv:
+                    if kk in e2 and kk not in bound:
+                        cenv[kk] = e2[kk]
         if f[0] == "fnref":
             return self.call_fn(f[1], args)
         if f[0] == "builtin-fn":
@@ -440,6 +526,45 @@ class AEval(dtable.Eval):
                 return r.value
         finally:
             self.depth -= 1
+            self._callee_env = (fn, env)
+
+    def _write_back(self, arg_nodes, env):
+        """after a call to a local function: what it did to its `&mut` parameters is visible in the caller's variables"""
+        fn, cenv = getattr(self, "_callee_env", (None, None))
+        self._callee_env = (None, None)
+        if fn is None:
+            return
+        params = fn.node["sig"]["inputs"]
+        for p, a in zip(params, arg_nodes):
+            ty = (p.get("ty") or "").replace(" ", "")
+            pp = p.get("pat") or {}
+            if pp.get("k") != "PIdent" or not (ty.startswith("&mut") or ty.startswith("&'") and "mut" in ty[:12]):
+                continue
+            if pp["name"] not in cenv or a is None:
+                continue
+            tgt = a
+            while is_node(tgt) and tgt["k"] in ("Ref", "Paren", "Unary"):
+                tgt = tgt["expr"]
+            try:
+                self._assign_place(tgt, cenv[pp["name"]], env)
+            except Unknown:
+                pass
+
+    def _assign_place(self, target, newv, env):
+        while is_node(target) and target["k"] in ("Paren", "Unary", "Ref"):
+            target = target["expr"]
+        if is_node(target) and target["k"] == "Path":
+            if target["path"] in env:
+                env[target["path"]] = newv
+            return
+        if is_node(target) and target["k"] == "Field":
+            cur = self.ex(target["base"], env)
+            if cur[0] == "ctor" and len(cur) > 3:
+                fs = dict(cur[3])
+                fs[str(target["member"])] = newv
+                self._assign_place(target["base"], ("ctor", cur[1], cur[2], tuple(sorted(fs.items()))), env)
+                return
+        raise Unknown("assignment target")
 
     @staticmethod
     def _coerce_ret(fn, v):
@@ -463,11 +588,15 @@ class AEval(dtable.Eval):
             if f["path"] in env:
                 return self.apply(env[f["path"]], args)
             if last in self.funcs:
-                return self.call_fn(last, args)
+                v = self.call_fn(last, args)
+                self._write_back(e["args"], env)
+                return v
             if f["path"] in ("Box::new", "Rc::new", "Arc::new", "Into::into", "From::from", "std::convert::identity", "Clone::clone", "core::clone::Clone::clone") and len(args) == 1:
                 return args[0]
-            if last == "default" and not args and f["path"] in ("Default::default", "T::default", "std::default::Default::default", "core::default::Default::default"):
+            if last == "default" and not args and (f["path"] in ("Default::default", "std::default::Default::default", "core::default::Default::default") or re.match(r"^[A-Z]::default$", f["path"])):
                 return DEFAULT
+            if last == "from" and len(args) == 1 and args[0][0] == "bool" and re.match(r"^(usize|u8|u16|u32|u64|u128|isize|i8|i16|i32|i64|i128)::from$", f["path"]):
+                return I(1 if args[0][1] else 0)
             if last[:1].isupper():
                 return C(last, *args)
             if f["path"] in ("Vec::new", "Vec::with_capacity", "BTreeMap::new", "BTreeSet::new", "HashMap::new", "HashSet::new", "VecDeque::new"):
@@ -479,6 +608,49 @@ class AEval(dtable.Eval):
             raise Unknown("call to " + f["path"])
         return self.apply(self.ex(f, env), args)
 
+    def _ordering(self, v):
+        if v[0] == "ctor" and v[1] in ("Less", "Equal", "Greater"):
+            return {"Less": -1, "Equal": 0, "Greater": 1}[v[1]]
+        raise Unknown("comparator did not return an Ordering: %s" % (v[:2],))
+
+    def _key(self, v):
+        if v[0] in ("int", "char", "str", "bool"):
+            return (v[0], v[1])
+        if v[0] == "tuple":
+            return ("tuple", tuple(self._key(x) for x in v[1]))
+        if v[0] == "ctor" and v[1] == "Reverse" and v[2]:
+            return ("rev", _Rev(self._key(v[2][0])))
+        raise Unknown("sort key is not a number / string")
+
+    def _inplace(self, m, part, args):
+        import functools
+        if m in ("retain", "retain_mut"):
+            return [x for x in part if self._b(self.apply(args[0], [x]))]
+        if m in ("sort", "sort_unstable"):
+            return sorted(part, key=self._key)
+        if m in ("sort_by", "sort_unstable_by"):
+            return sorted(part, key=functools.cmp_to_key(lambda x, y: self._ordering(self.apply(args[0], [x, y]))))
+        if m in ("sort_by_key", "sort_unstable_by_key", "sort_by_cached_key"):
+            return sorted(part, key=lambda x: self._key(self.apply(args[0], [x])))
+        if m == "reverse":
+            return list(reversed(part))
+        if m == "dedup":
+            out = []
+            for x in part:
+                if not out or out[-1] != x:
+                    out.append(x)
+            return out
+        if m == "truncate" and args and args[0][0] == "int":
+            return part[:args[0][1]]
+        if m == "swap" and len(args) == 2 and args[0][0] == "int" and args[1][0] == "int" and max(args[0][1], args[1][1]) < len(part):
+            part = list(part)
+            part[args[0][1]], part[args[1][1]] = part[args[1][1]], part[args[0][1]]
+            return part
+        if m in ("rotate_left", "rotate_right") and args and args[0][0] == "int" and args[0][1] <= len(part):
+            n = args[0][1] if m == "rotate_left" else len(part) - args[0][1]
+            return part[n:] + part[:n]
+        raise Unknown("in-place " + m)
+
     def method(self, e, env):
         m = e["method"]
         rnode = e["receiver"]
@@ -489,6 +661,40 @@ class AEval(dtable.Eval):
                 return C("None")
             env[rnode["path"]] = ("list", lst[1:])
             return C("Some", lst[0])
+        if m in ("retain", "retain_mut", "sort", "sort_unstable", "sort_by", "sort_unstable_by", "sort_by_key", "sort_unstable_by_key", "sort_by_cached_key", "reverse", "dedup", "truncate", "swap", "rotate_left", "rotate_right"):
+            tgt, lo, hi = rnode, None, None
+            while is_node(tgt) and tgt["k"] in ("Paren", "Ref", "Unary"):
+                tgt = tgt["expr"]
+            if is_node(tgt) and tgt["k"] == "Index" and is_node(tgt["index"]) and tgt["index"]["k"] == "Range":
+                rg = tgt["index"]
+                lo = self.ex(rg["start"], env) if is_node(rg.get("start")) else I(0)
+                hi = self.ex(rg["end"], env) if is_node(rg.get("end")) else None
+                if hi is not None and rg.get("inclusive") and hi[0] == "int":
+                    hi = I(hi[1] + 1)
+                tgt = tgt["expr"]
+                while is_node(tgt) and tgt["k"] in ("Paren", "Ref", "Unary"):
+                    tgt = tgt["expr"]
+            if is_node(tgt) and tgt["k"] == "Path" and lo is None and isinstance(env.get(tgt["path"]), MutRef):
+                ref = env[tgt["path"]]
+                cur = list(ref.env[ref.name][1][ref.a:ref.z])
+                args = [self.ex(x, env) for x in e["args"]]
+                part = self._inplace(m, cur, args)
+                if len(part) != len(cur):
+                    raise Unknown("length-changing operation through a slice reference")
+                ref.store(part)
+                env[tgt["path"]] = MutRef(ref.env, ref.name, ref.a, ref.z)
+                return UNIT
+            if is_node(tgt) and tgt["k"] == "Path" and tgt["path"] in env and env[tgt["path"]][0] == "list":
+                whole = list(env[tgt["path"]][1])
+                a = lo[1] if lo is not None and lo[0] == "int" else 0
+                z = hi[1] if hi is not None and hi[0] == "int" else len(whole)
+                if (lo is not None and lo[0] != "int") or (hi is not None and hi[0] != "int") or not (0 <= a <= z <= len(whole)):
+                    raise Unknown("slice bounds")
+                part = whole[a:z]
+                args = [self.ex(x, env) for x in e["args"]]
+                part = self._inplace(m, part, args)
+                env[tgt["path"]] = L(*(whole[:a] + part + whole[z:]))
+                return UNIT
         if m == "clear" and not e["args"] and is_node(rnode) and rnode["k"] == "Path" and rnode["path"] in env and env[rnode["path"]][0] == "list":
             env[rnode["path"]] = L()
             return UNIT
@@ -537,8 +743,16 @@ class AEval(dtable.Eval):
                     args2[int(mem)] = ("list", tuple(cur))
                     env[rnode["base"]["path"]] = ("ctor", holder[1], tuple(args2)) + tuple(holder[3:])
                 return UNIT
+        if m in ("push_str", "push") and len(e["args"]) == 1 and is_node(rnode) and rnode["k"] == "Path" and rnode["path"] in env and env[rnode["path"]][0] == "str" and m not in self.builtins:
+            v = self.ex(e["args"][0], env)
+            if v[0] == "char":
+                v = ("str", chr(v[1]))
+            if v[0] != "str":
+                raise Unknown("push of a non string onto a string")
+            env[rnode["path"]] = ("str", env[rnode["path"]][1] + v[1])
+            return UNIT
         if m in ("write_str", "push_str", "write_char", "push") and m not in self.builtins and len(e["args"]) == 1 and is_node(rnode) and rnode["k"] == "Path" \
-                and not (rnode["path"] in env and env[rnode["path"]][0] == "list"):
+                and not (rnode["path"] in env and env[rnode["path"]][0] == "list") and not (m in self.funcs and rnode["path"] in env and env[rnode["path"]][0] == "ctor"):
             v = self.ex(e["args"][0], env)
             self.out.append(v)
             return C("Ok", UNIT) if m.startswith("write") else UNIT
@@ -582,7 +796,9 @@ class AEval(dtable.Eval):
         if r[0] == "atom" and not r[1].startswith("expr:") and not r[1].startswith("lit:"):
             return A("%s.%s" % (r[1], m))
         if m in self.funcs and r[0] != "list" and not (m in ("map", "iter") and r[0] in ("ctor",) and r[1] in ("Some", "None")):
-            return self.call_fn(m, [r] + args)
+            v = self.call_fn(m, [r] + args)
+            self._write_back([rnode] + list(e["args"]), env)
+            return v
         if m in ("iter", "iter_mut", "into_iter", "as_slice", "as_ref", "as_mut", "by_ref", "deref", "borrow", "clone", "cloned", "copied", "to_owned",
                  "into", "collect", "to_token_stream", "as_deref", "peekable", "to_vec", "values") and not args:
             if m == "values" and r[0] == "list":
@@ -623,6 +839,31 @@ class AEval(dtable.Eval):
                 return C("None")
             if m == "enumerate":
                 return L(*[T(I(i), x) for i, x in enumerate(xs)])
+            if m == "map_while":
+                out = []
+                for x in xs:
+                    v = self.apply(args[0], [x])
+                    if not (v[0] == "ctor" and v[1] == "Some"):
+                        break
+                    out.append(v[2][0])
+                return L(*out)
+            if m == "take_while":
+                out = []
+                for x in xs:
+                    if not self._b(self.apply(args[0], [x])):
+                        break
+                    out.append(x)
+                return L(*out)
+            if m == "skip_while":
+                i = 0
+                while i < len(xs) and self._b(self.apply(args[0], [xs[i]])):
+                    i += 1
+                return L(*xs[i:])
+            if m in ("join", "concat") and all(x[0] == "str" for x in xs) and (not args or args[0][0] in ("str", "char")):
+                sep = "" if not args else (args[0][1] if args[0][0] == "str" else chr(args[0][1]))
+                return ("str", sep.join(x[1] for x in xs))
+            if m == "next" and not args:
+                return C("Some", xs[0]) if xs else C("None")
             if m == "rev":
                 return L(*reversed(xs))
             if m == "unzip" and all(x[0] == "tuple" and len(x[1]) == 2 for x in xs):
@@ -720,6 +961,10 @@ class AEval(dtable.Eval):
             if m == "ok_or" or m == "ok_or_else":
                 return C("Ok", r[2][0]) if some else C("Err", args[0] if m == "ok_or" else self.apply(args[0], []))
         if r[0] == "ctor" and r[1] in ("Ok", "Err"):
+            if m in ("unwrap", "expect", "unwrap_or_else", "unwrap_or_default") and r[1] == "Ok" and r[2]:
+                return r[2][0]
+            if m in ("unwrap", "expect") and r[1] == "Err":
+                raise Ret(C("!panic"))
             if m == "is_ok":
                 return B(r[1] == "Ok")
             if m == "is_err":
@@ -737,6 +982,20 @@ class AEval(dtable.Eval):
             if m == "checked_sub":
                 return C("Some", I(a - b2)) if a - b2 >= 0 else C("None")
             return I({"min": min(a, b2), "max": max(a, b2), "saturating_sub": max(0, a - b2), "wrapping_add": a + b2}[m])
+        if m in ("cmp", "partial_cmp") and len(args) == 1 and r[0] in ("int", "char", "str", "bool", "tuple") and args[0][0] == r[0]:
+            ka, kb = self._key(r), self._key(args[0])
+            o = C("Less") if ka < kb else (C("Greater") if ka > kb else C("Equal"))
+            return o if m == "cmp" else C("Some", o)
+        if r[0] == "ctor" and r[1] in ("Less", "Equal", "Greater") and not r[2]:
+            if m == "reverse" and not args:
+                return C({"Less": "Greater", "Greater": "Less", "Equal": "Equal"}[r[1]])
+            if m == "then" and len(args) == 1:
+                return r if r[1] != "Equal" else args[0]
+            if m == "then_with" and len(args) == 1:
+                return r if r[1] != "Equal" else self.apply(args[0], [])
+            if m in ("is_lt", "is_gt", "is_eq", "is_ne", "is_le", "is_ge") and not args:
+                c = self._ordering(r)
+                return B({"is_lt": c < 0, "is_gt": c > 0, "is_eq": c == 0, "is_ne": c != 0, "is_le": c <= 0, "is_ge": c >= 0}[m])
         if r[0] in ("int", "char") and m in ("eq", "ne", "lt", "le", "gt", "ge") and len(args) == 1 and args[0][0] in ("int", "char"):
             x, y = r[1], args[0][1]
             return B({"eq": x == y, "ne": x != y, "lt": x < y, "le": x <= y, "gt": x > y, "ge": x >= y}[m])
@@ -752,6 +1011,24 @@ class AEval(dtable.Eval):
         sa = (chr(a0[1]) if a0 and a0[0] == "char" else (a0[1] if a0 and a0[0] == "str" else None))
         if m == "trim" and not args:
             return ("str", t.strip())
+        if m in ("trim_matches", "trim_start_matches", "trim_end_matches") and len(args) == 1:
+            a0_ = args[0]
+            chars = None
+            if a0_[0] == "char":
+                chars = chr(a0_[1])
+            elif a0_[0] == "list" and all(x[0] == "char" for x in a0_[1]):
+                chars = "".join(chr(x[1]) for x in a0_[1])
+            if chars is not None:
+                return ("str", {"trim_matches": t.strip, "trim_start_matches": t.lstrip, "trim_end_matches": t.rstrip}[m](chars))
+            if a0_[0] == "str" and a0_[1]:
+                pat_, u = a0_[1], t
+                if m in ("trim_matches", "trim_start_matches"):
+                    while u.startswith(pat_):
+                        u = u[len(pat_):]
+                if m in ("trim_matches", "trim_end_matches"):
+                    while u.endswith(pat_):
+                        u = u[:len(u) - len(pat_)]
+                return ("str", u)
         if m == "trim_start" and not args:
             return ("str", t.lstrip())
         if m == "trim_end" and not args:
@@ -869,6 +1146,10 @@ class AEval(dtable.Eval):
                 elif k == "ExprStmt":
                     v = self.ex(st["expr"], env)
                     last = UNIT if st.get("semi") else v
+                elif k == "ItemMacro" and st.get("path") == "macro_rules" and st.get("rule_body") is not None:
+                    env["macro!" + st["ident"]] = ("macro", st["rule_params"], st["rule_body"])
+                    shadow.add("macro!" + st["ident"])
+                    last = UNIT
                 elif k in ("Const", "Static") and is_node(st.get("expr")) and st.get("name"):
                     env[st["name"]] = self.ex(st["expr"], env)
                     shadow.add(st["name"])
